@@ -12,6 +12,13 @@ invariant Inv (rollup <= end when both are set), every statement shape and all a
   (d) OLD.reason set              =>  R.reason set, and OLD.end set => R.end set and R.end <= OLD.end, and OLD.end NULL => R.end NULL
   (e) OLD.start set and not activation_timeout  =>  R.start set and R.start <= OLD.start
   (f) Inv(R)
+Wave 4 - the two clauses that speak about an activation timeout AFTER it has been marked (the reason column is sticky, so
+"marks an activation timeout (which bills nothing)" and "the start time only ever moves earlier" are facts about every LATER
+report as well; clause (e) alone says nothing once the start has been wiped to NULL).  Row invariant
+Inv2: reason = 'activation_timeout' => start_time IS NULL (hence billed = 0); for every OLD with Inv and Inv2:
+  (g) Inv2(R)                                  - an attempt marked as an activation timeout bills nothing, now and after any report
+  (h) OLD.reason = 'activation_timeout' => R.start IS NULL   - the start wiped by the timeout never comes back (100 -> NULL -> 300
+                                                 would be a start that moved later), whatever happens to the reason
 Interpretation stated openly: "never exceeds end - start" is read as max(end - start, 0).
 """
 from __future__ import annotations
@@ -35,10 +42,34 @@ def inv(row):
     return z3.Implies(z3.And(z3.Not(r.n), z3.Not(e.n)), r.v <= e.v)
 
 
+def is_timeout(sv):
+    return z3.And(z3.Not(sv.n), sv.v == intern(TIMEOUT))
+
+
+def inv2(row):
+    """an attempt whose end reason is the activation timeout has no start time (so it bills nothing)"""
+    return z3.Implies(is_timeout(row['reason']), row['start_time'].n)
+
+
+_TO_REACH = {}
+
+
+def timeout_clauses(ctx, label, h, old, new, replay=None, suffix='', extra=()):
+    """(g), (h) and their vacuity; `h` already contains Inv(OLD); Inv2(OLD) is added here only (the older clauses keep their
+    weaker hypotheses)"""
+    h2 = list(h) + [inv2(old)] + list(extra)
+    ctx.add(core.valid('%s/g-activation-timeout-bills-nothing-start-stays-null%s' % (label, suffix), h2, inv2(new)), replay=replay)
+    ctx.add(core.valid('%s/h-start-wiped-by-activation-timeout-never-comes-back%s' % (label, suffix), h2 + [is_timeout(old['reason'])], new['start_time'].n), replay=replay)
+    # vacuity is per writer, not per path: along the paths on which add_attempt has just inserted the row OLD.reason is NULL
+    import re as _re
+
+    _TO_REACH.setdefault(_re.sub(r'(@L\d+(#\d+)?|/path\d+)$', '', label) + suffix, []).append(z3.And(*h2, is_timeout(old['reason'])))
+
+
 _SEEN = set()
 
 
-def obligations(ctx, label, hyps, old, new, written_reason: SV, replay=None):
+def obligations(ctx, label, hyps, old, new, written_reason: SV, replay=None, timeout_cases=None):
     # cone of influence + de-duplication: the same statement reached along different procedure paths yields the same VCs
     rows_term = z3.And(*[z3.And(x[c].n == x[c].n, x[c].v == x[c].v) for x in (old, new) for c in ('start_time', 'rollup_time', 'end_time', 'reason')] + [written_reason.v == written_reason.v])
     hyps = core.slice_hyps(hyps, rows_term)
@@ -60,6 +91,9 @@ def obligations(ctx, label, hyps, old, new, written_reason: SV, replay=None):
     ctx.add(core.valid('%s/e-start-only-moves-earlier' % label, h + [z3.Not(os_.n), z3.Not(to)], z3.And(z3.Not(ns.n), ns.v <= os_.v)), replay=replay)
     ctx.add(core.valid('%s/f-rollup-not-after-end' % label, h, inv(new)), replay=replay)
     ctx.add(core.satisfiable('%s/vacuity/reachable' % label, h))
+    timeout_clauses(ctx, label, h, old, new, replay=replay)
+    for suffix, extra in timeout_cases or ():
+        timeout_clauses(ctx, label, h, old, new, replay=replay, suffix='/' + suffix, extra=extra)
 
 
 def _written_reason(effect, old) -> SV:
@@ -109,6 +143,9 @@ def build(ctx):
         ctx.add(core.valid(label + '/f-rollup-not-after-end', h, inv(R)))
         to = z3.And(z3.Not(new['reason'].n), new['reason'].v == intern(TIMEOUT))
         ctx.add(core.valid(label + '/e-start-only-moves-earlier', h + [z3.Not(old['start_time'].n), z3.Not(to)], z3.And(z3.Not(ns.n), ns.v <= old['start_time'].v)))
+        # (g), (h) for ANY statement that leaves the reason column alone (NEW.reason = OLD.reason when the trigger starts):
+        # every creating / started / heartbeat report after the timeout, present or future
+        timeout_clauses(ctx, label, h, old, R, suffix='/statement-does-not-assign-reason', extra=[sqlvc.sv_eq_values(new['reason'], old['reason'])])
     ctx.add(core.decided('trigger/paths-generated', len(outs) >= 8, '%d paths' % len(outs), kind='vacuity'))
     # canary: "billed never decreases, full stop" is false (an earlier end legitimately lowers it) and must be refuted
     to0 = z3.And(z3.Not(new['reason'].n), new['reason'].v == intern(TIMEOUT))
@@ -157,7 +194,14 @@ def build(ctx):
                     ne_ = [v for k, v in s.vars.items() if k == 'new_end_time'][0]
                     hyps.append(z3.Implies(ne_.n, z3.And(o['start_time'].n, o['rollup_time'].n, o['end_time'].n)))
                 label = '%s@L%d#%d' % (name, e.line, n_stmt)
-                obligations(ctx, label, hyps, o, n_, wr)
+                tc = None
+                if name == 'mark_job_complete':
+                    # the general (g)/(h) fail for this statement on the unchanged tree (known finding F-C03-1: the only writer
+                    # that assigns start_time AND reason); the part that holds - a report without a start time, as sent by
+                    # mark_job_errored / cancellation - stays under obligation so that the known entry cannot mask more
+                    nst = [v for k, v in s.vars.items() if k == 'new_start_time'][0]
+                    tc = [('report-without-start-time', [nst.n])]
+                obligations(ctx, label, hyps, o, n_, wr, timeout_cases=tc)
     ctx.add(core.decided('closed-world/procedures-updating-attempts', set(writers) == {'deactivate_instance', 'mark_job_complete', 'mark_job_creating', 'mark_job_started', 'unschedule_job'}, repr(writers), kind='scan'))
 
     # (2) embedded SQL in the services that writes attempts
@@ -190,6 +234,10 @@ def build(ctx):
     ctx.extra['python_statements_updating_attempts'] = ['%s:%d' % (p.replace(core.REPO + '/', ''), l) for p, l in py_writers]
     ctx.add(core.decided('closed-world/python-writers-of-attempts', len(py_writers) == 1, repr(ctx.extra['python_statements_updating_attempts']), kind='scan'))
 
+    for grp, terms in sorted(_TO_REACH.items()):
+        ctx.add(core.satisfiable('%s/vacuity/reachable-after-an-activation-timeout' % grp, z3.Or(*terms)))
+    _TO_REACH.clear()
+
     # (3) call sites: the reason argument is never NULL
     _reason_call_sites(ctx)
     from contracts import sqlspec as _SP
@@ -198,6 +246,8 @@ def build(ctx):
     ctx.assume('table invariant Inv (rollup_time <= end_time when both set) holds for rows created by add_attempt (all three NULL) and is re-established by obligation (f) for every writer')
     ctx.assume('call-site facts taken as preconditions (checked only syntactically): time arguments of unschedule_job, deactivate_instance, mark_job_started, mark_job_creating and billing_update are non-NULL (time_msecs() / worker-reported); mark_job_complete receives end_time = NULL only from mark_job_errored, for an attempt with no recorded times')
     ctx.assume('SQL cannot be executed in this sandbox: counter-models are rows, reported with no-failing-input-found')
+    ctx.assume('row invariant Inv2 (reason = activation_timeout implies start_time IS NULL) is a hypothesis of clauses (g)/(h) only; it holds for rows created by add_attempt (reason NULL) and is re-established by (g) for every writer except the known finding on mark_job_complete')
+    ctx.undecided("'the start time only ever moves earlier' across a start wiped by a STALE activation timeout: deactivate_instance(.., 'activation_timeout', ..) also reaches attempts of the instance that already ended with another reason; their start is wiped while the latched reason stays, so clause (h) does not apply and a later creating/started report may set a start later than the wiped one (billing stays within (b); not claimed)")
 
 
 def _python_sql():
